@@ -7,7 +7,7 @@ From KV Require Import Base.Prelude Keys.KeyModel Keyberon.Types Keyberon.Switch
   Parser.SwitchCompile Spec.BoolSpec Kanata.Glue Parser.SeqTable Parser.Sexpr Parser.Template Kanata.Zippy Kanata.Reload.
 Extraction Language OCaml.
 Extraction "model.ml"
-  layout_event layout_tick init_layout keycodes current_layer evaluate_boolean switch_actions
+  layout_event layout_tick layout_event2 layout_tick2 chv2_init set_chords2 init_layout keycodes current_layer evaluate_boolean switch_actions
   os_from_u16 os_as_u16 osc_to_kc kc_to_osc kc_as_u16 str_to_oscode out_filter
   compiles compile_case cases_spec parse_sequences
   k_input k_tick k_init k_is_idle k_is_idle_cfg k_can_block override_keys fakekey_action set_k_layout
